@@ -162,6 +162,20 @@ class Packed:
     args: list
 
 
+@dataclass
+class Cat:
+    """concatenation of byte strings: Packed | Py(bytes) | Span parts"""
+    parts: list
+
+
+@dataclass
+class Span:
+    """constant-position slice [lo:hi) of a Packed / Cat value (hi None: to the end)"""
+    base: Any
+    lo: int
+    hi: Optional[int]
+
+
 TRUE = ("true",)
 FALSE = ("false",)
 
@@ -483,10 +497,32 @@ class Ev:
                 if isinstance(idx, BV) and idx.is_const():
                     return BV.src(f"{base.name}[{idx.value()}]", 8)
                 return Sym(f"{base.name}[{norm_text(e.slice)}]")
+            if isinstance(base, (Packed, Cat, Span)) and isinstance(e.slice, ast.Slice) and e.slice.step is None:
+                def cb(x):
+                    if x is None:
+                        return None
+                    v = self.ev(x, env, module)
+                    if isinstance(v, BV) and v.is_const():
+                        return v.value()
+                    raise Unsupported("slice of packed bytes with a non-constant / negative bound")
+                return Span(base, cb(e.slice.lower) or 0, cb(e.slice.upper))
+            if isinstance(base, Tup) and isinstance(e.slice, ast.Slice) and e.slice.step is None:
+                def bound(x, default):
+                    if x is None:
+                        return default
+                    v = self.ev(x, env, module)
+                    if isinstance(v, BV) and v.is_const():
+                        return v.value()
+                    if isinstance(v, Py) and isinstance(v.v, int):
+                        return v.v
+                    raise Unsupported("slice of a tuple with a non-constant bound")
+                return Tup(base.items[bound(e.slice.lower, None):bound(e.slice.upper, None)])
             if isinstance(base, Tup):
                 idx = self.ev(e.slice, env, module)
                 if isinstance(idx, BV) and idx.is_const():
                     return base.items[idx.value()]
+                if isinstance(idx, Py) and isinstance(idx.v, int) and -len(base.items) <= idx.v < 0:
+                    return base.items[idx.v]
             items = self._const_items(base) if not isinstance(e.slice, ast.Slice) else None
             if items:
                 # lookup in a constant table with a symbolic integer key: a case split over the keys (a key outside the table
@@ -576,6 +612,14 @@ class Ev:
         raise Unsupported("comprehension over a non-range iterable")
 
     def binop(self, op, a, b):
+        if isinstance(op, ast.Add) and (isinstance(a, (Packed, Cat, Span)) or isinstance(b, (Packed, Cat, Span))):
+            def parts(x):
+                if isinstance(x, Cat):
+                    return list(x.parts)
+                if isinstance(x, (Packed, Span)) or (isinstance(x, Py) and isinstance(x.v, (bytes, bytearray))):
+                    return [x]
+                raise Unsupported(f"concatenation with {type(x).__name__}")
+            return Cat(parts(a) + parts(b))
         # distribute over guarded alternatives
         if isinstance(a, Choice):
             return self.merge([(c, self.binop(op, v, b)) for c, v in a.alts])
@@ -736,6 +780,9 @@ class Ev:
                 raise Unsupported("ordering of constants")
             return BoolV(TRUE if r else FALSE)
         for x, y in ((a, b), (b, a)):
+            if isinstance(x, Sym) and isinstance(y, Py) and y.v is None and sym in ("==", "!="):
+                c = ("isnone", x.name)  # `x == None` reads like `x is None` for the values modelled here
+                return BoolV(c if sym == "==" else c_not(c))
             if isinstance(x, Sym) and isinstance(y, Py):
                 c = ("symeq", x.name, repr(y.v))
                 return BoolV(c if sym == "==" else c_not(c))
@@ -841,8 +888,22 @@ class Ev:
             if isinstance(v, Py) and isinstance(v.v, (bytes, str)):
                 return self.lift(len(v.v))
             raise Unsupported("len of non-symbol")
+        if d in ("bytes", "bytearray", "memoryview") and len(args) == 1 and not kws:
+            v = self.ev(args[0], env, module)
+            if isinstance(v, (Packed, Cat, Span)) or (isinstance(v, Py) and isinstance(v.v, (bytes, bytearray))) or (isinstance(v, Sym) and v.typ == "bytes"):
+                return v
+            raise Unsupported(f"builtin {d}")
         if d in ("bytes", "bytearray", "bool", "round", "divmod", "reduce", "range"):
             raise Unsupported(f"builtin {d}")
+        if isinstance(e.func, ast.Attribute) and e.func.attr not in ("pack", "pack_into", "unpack", "unpack_from"):
+            try:
+                bv = self.ev(e.func.value, env, module)
+            except Unsupported:
+                bv = None
+            if isinstance(bv, (Packed, Cat, Span)):
+                # a bytes method applied to packed bytes (strip, replace, ...): the result depends on the byte values - it is no longer
+                # a fixed-position part of the packed record
+                return Sym(f"<value-dependent bytes: {norm_text(e)[:50]}>", "bytes")
         # struct pack / unpack
         if isinstance(e.func, ast.Attribute) and e.func.attr in ("unpack_from", "unpack", "pack", "pack_into"):
             st = self.const(module, e.func.value)
@@ -1114,6 +1175,9 @@ class Ev:
     # ---- merging ------------------------------------------------------------------
     def merge(self, alts: list):
         alts = [(c, v) for c, v in alts if c != FALSE]
+        if len(alts) == 2 and alts[1][0] == TRUE and alts[0][0][0] == "not":
+            # `A if not c else B` is `B if c else A`: one normal form for a two-way choice
+            alts = [(alts[0][0][1], alts[1][1]), (TRUE, alts[0][1])]
         if not alts:
             return Py(None)
         if len(alts) == 1:
